@@ -104,6 +104,10 @@ def _own_arc(pts, equalize=True):
     return arc
 
 
+def np_pt(p):
+    return [float(x) for x in p]
+
+
 def _unit_f(v):
     n = math.sqrt(sum(float(x) * float(x) for x in v))
     return [float(x) / n for x in v]
@@ -128,7 +132,10 @@ class C16(core.Check):
         "observed, its vertices moved along the curve, observed again; seq: hairpin curves (analytic and spline), closest-parameter "
         "queries alternating between the legs on one curve object, each compared with a fresh object and a 2001-point scan, and an "
         "edge around the bend; linear curves also with equalize=False; analytic curves also with bounds not starting at 0 and "
-        "parameters exactly 0 / exactly the bounds / equal; bad: parameters outside the bounds. Non-trivial = every "
+        "parameters exactly 0 / exactly the bounds / equal; qtq: one curve object (circle, arc of a circle, line, linear, spline, discrete) "
+        "queried, then translated / rotated (also about its own axis) / scaled / mirrored in place, on a copy of the queried curve or "
+        "inside a copied operation that carries it on an edge, then queried again near its new position; "
+        "bad: parameters outside the bounds. Non-trivial = every "
         "case; distinct = different input."
     )
     assumptions = [
@@ -424,6 +431,56 @@ class C16(core.Check):
             pts = _uneven_points(rng, k)
             bad = rng.choice([-0.5, -1.0, k - 1 + 0.5, float(k), k + 3.0])
             cases.append({"kind": "bad", "curve": rng.choice(["discrete", "linear"]), "points": pts, "a": bad, "b": 0.0 if rng.random() < 0.5 else 1.0})
+        # round 6b — histories query -> transform -> query on ONE curve object, every curve class, every kind of transform, in place,
+        # on a copy of the queried curve, or as part of a copied operation that carries the curve on an edge
+        classes = ["circle", "circle", "line", "linear", "spline", "discrete"]
+        for i in range(max(18, n if tier == "quick" else n // 4)):
+            which = classes[i % len(classes)]
+            c = {"kind": "qtq", "curve": which, "via": ["inplace", "copy", "opcopy"][(i // len(classes)) % 3]}
+            if which == "circle":
+                c["origin"] = [rng.uniform(-5, 5) for _ in range(3)]
+                R = 10 ** rng.uniform(-0.5, 0.7)
+                u = self._unit(rng)
+                c["rim"] = _add(c["origin"], _mul(R, u))
+                nrm = self._unit(rng)
+                nrm = _sub(nrm, _mul(sum(a * b for a, b in zip(nrm, u)), u))
+                if math.sqrt(sum(x * x for x in nrm)) < 0.2:
+                    nrm = [u[1], -u[0], 0.0] if abs(u[2]) < 0.9 else [0.0, u[2], -u[1]]
+                c["normal"] = nrm
+                c["bounds"] = [0.0, 2 * math.pi] if rng.random() < 0.7 else [0.2, rng.uniform(2.5, 5.5)]
+                c["size"] = R
+            elif which == "line":
+                c["p1"] = [rng.uniform(-5, 5) for _ in range(3)]
+                c["p2"] = _add(c["p1"], [rng.uniform(0.5, 5) * rng.choice([1, -1]) for _ in range(3)])
+                c["bounds"] = [0.0, 1.0] if rng.random() < 0.5 else [-1.0, 3.0]
+                c["size"] = _dist(c["p1"], c["p2"])
+            else:
+                c["points"] = _uneven_points(rng, rng.randint(4, 8), smooth=(which == "spline"))
+                c["bounds"] = [0.0, 1.0] if which != "discrete" else [0.0, float(len(c["points"]) - 1)]
+                c["size"] = _poly(c["points"])
+            lo, hi = c["bounds"]
+            m = 0.08 * (hi - lo)
+            steps = []
+            names = ["translate", "rotate", "scale", "mirror"]
+            rng.shuffle(names)
+            for name in names[: rng.randint(1, 2)]:
+                if name == "translate":
+                    op = ["translate", [rng.uniform(-3, 3) * c["size"] for _ in range(3)]]
+                elif name == "rotate":
+                    # often about the curve's own axis / a point of its own, by angles on either side of pi
+                    axis = c["normal"] if which == "circle" and rng.random() < 0.5 else self._unit(rng)
+                    org = c["origin"] if which == "circle" and rng.random() < 0.5 else [rng.uniform(-3, 3) for _ in range(3)]
+                    op = ["rotate", rng.choice([-1, 1]) * rng.uniform(0.7, 3.6), axis, org]
+                elif name == "scale":
+                    op = ["scale", rng.choice([0.3, 0.5, 2.5, 4.0]), [rng.uniform(-3, 3) for _ in range(3)]]
+                else:
+                    op = ["mirror", self._unit(rng), [rng.uniform(-3, 3) for _ in range(3)]]
+                steps.append(op)
+            c["ops"] = steps
+            # the parameters near which the queries are placed, before and after each transform; offsets are fractions of the size
+            c["tq"] = [[rng.uniform(lo + m, hi - m) for _ in range(3)] for _ in range(len(steps) + 1)]
+            c["off"] = [[[rng.uniform(-0.01, 0.01) for _ in range(3)] for _ in range(3)] for _ in range(len(steps) + 1)]
+            cases.append(c)
         return cases
 
     @staticmethod
@@ -551,6 +608,8 @@ class C16(core.Check):
             return self._run_seq(case)
         if kind == "tf":
             return self._run_tf(case)
+        if kind == "qtq":
+            return self._run_qtq(case)
         if kind == "edge_hist":
             return self._run_edge_hist(case)
 
@@ -698,6 +757,85 @@ class C16(core.Check):
             c = fresh()
             t = float(c.get_closest_param(p))
             out["queries"].append({"p": p, "t": t, "d": _dist(fl(c.get_point(t)), p), "scan_min": min(_dist(x, p) for x in scan)})
+        return out
+
+    def _run_qtq(self, case: dict) -> Any:
+        """query -> transform -> query on one curve object (in place, on a copy, or through a copied operation)"""
+        import classy_blocks as cb
+
+        fl = lambda p: [float(x) for x in p]
+        curve = self._curve(case)
+        via = case["via"]
+        discrete = case["curve"] == "discrete"
+        op = None
+        if via == "opcopy":
+            # a loft whose first side edge lies on the curve; the curve travels with the operation
+            lo, hi = curve.bounds
+            ta, tb = lo + 0.2 * (hi - lo), lo + 0.6 * (hi - lo)
+            pa, pb = np_pt(curve.get_point(ta)), np_pt(curve.get_point(tb))
+            d = _sub(pb, pa)
+            e = [d[1], -d[0], 0.0] if abs(d[0]) + abs(d[1]) > 1e-6 else [0.0, d[2], -d[1]]
+            en = math.sqrt(sum(x * x for x in e))
+            e = [x / en * case["size"] for x in e]
+            g = [d[1] * e[2] - d[2] * e[1], d[2] * e[0] - d[0] * e[2], d[0] * e[1] - d[1] * e[0]]
+            gn = math.sqrt(sum(x * x for x in g))
+            g = [x / gn * case["size"] for x in g]
+            bottom = [pa, _add(pa, e), _add(_add(pa, e), g), _add(pa, g)]
+            top = [pb, _add(pb, e), _add(_add(pb, e), g), _add(pb, g)]
+            op = cb.Loft(cb.Face(bottom), cb.Face(top))
+            op.add_side_edge(0, cb.OnCurve(curve))
+
+        def ask(c, k):
+            lo, hi = c.bounds
+            scan = None
+            res = []
+            for t, off in zip(case["tq"][k], case["off"][k]):
+                t = float(int(round(t))) if discrete else t
+                q = _add(fl(c.get_point(t)), _mul(case["size"], off))
+                try:
+                    tr = float(c.get_closest_param(q))
+                except Exception as e:  # noqa: BLE001
+                    res.append({"p": q, "error": f"{type(e).__name__}: {e}"[:120]})
+                    continue
+                if scan is None:
+                    if discrete:
+                        scan = [fl(p) for p in c.discretize()]
+                    else:
+                        scan = [fl(c.get_point(min(hi, lo + (hi - lo) * i / (N_SCAN - 1)))) for i in range(N_SCAN)]
+                inb = lo <= tr <= hi
+                res.append(
+                    {
+                        "p": q,
+                        "t": tr,
+                        "in_bounds": bool(inb),
+                        "d": _dist(fl(c.get_point(min(hi, max(lo, tr)))), q),
+                        "scan_min": min(_dist(x, q) for x in scan),
+                    }
+                )
+            return res
+
+        def apply(obj, o):
+            if o[0] == "translate":
+                obj.translate(o[1])
+            elif o[0] == "rotate":
+                obj.rotate(o[1], o[2], o[3])
+            elif o[0] == "scale":
+                obj.scale(o[1], o[2])
+            else:
+                obj.mirror(o[1], o[2])
+
+        out = {"steps": [ask(curve, 0)]}
+        for k, o in enumerate(case["ops"], start=1):
+            if via == "inplace":
+                apply(curve, o)
+            elif via == "copy":
+                curve = curve.copy()
+                apply(curve, o)
+            else:
+                op = op.copy()
+                apply(op, o)
+                curve = op.side_edges[0].curve
+            out["steps"].append(ask(curve, k))
         return out
 
     def _run_seq(self, case: dict) -> Any:
@@ -986,6 +1124,28 @@ class C16(core.Check):
             case.get("curve", kind), "AnalyticCurve"
         )
 
+        if kind == "qtq":
+            # the closest-point clause of the property, asked before and after every transform of one curve object
+            name = {"circle": "CircleCurve", "line": "LineCurve"}.get(case["curve"], cname)
+            for k, step in enumerate(impl["steps"]):
+                when = "fresh" if k == 0 else f"after-{case['ops'][k - 1][0]}:{case['via']}"
+                for q in step:
+                    if "error" in q:
+                        bad(f"{name}.get_closest_param:raises:{when}", f"query {q['p']}: {q['error']}")
+                        continue
+                    sc = max(1.0, *[abs(x) for x in q["p"]])
+                    if not q["in_bounds"]:
+                        bad(f"{name}.get_closest_param:out-of-bounds:{when}", f"parameter {q['t']} outside {case['bounds']}")
+                    elif not q["d"] <= q["scan_min"] + TOL_MIN * sc * 10:
+                        bad(
+                            f"{name}.get_closest_param:not-closest:{when}",
+                            f"history {[o[0] for o in case['ops'][:k]]} ({case['via']}) after an earlier query on the same object: "
+                            f"query {q['p']}: parameter {q['t']} is {q['d']} away, a dense scan of the moved curve finds {q['scan_min']}",
+                            q["d"],
+                            q["scan_min"],
+                        )
+            return out
+
         if kind == "seq":
             name = "AnalyticCurve" if case["curve"] == "hairpin" else "SplineInterpolatedCurve"
             sc = max(1.0, case["a"], max(abs(x) for x in case["centre"]))
@@ -1236,6 +1396,8 @@ class C16(core.Check):
             return "discrete:aliased"
         if k == "tf":
             return "tf:" + case["curve"] + ":" + "+".join(sorted({o[0] for o in case["ops"]})) + ":" + case["mode"]
+        if k == "qtq":
+            return "qtq:" + case["curve"] + ":" + case["via"] + ":" + "+".join(o[0] for o in case["ops"])
         if k in ("analytic", "edge", "bad", "edge_hist", "seq"):
             return f"{k}:{case['curve']}"
         return k
